@@ -208,7 +208,7 @@ def specPrunableT (r : RctD) : B :=
   (if ty ∈ pseudoOutsInPrunable then cat r.pseudoOuts else [])
 
 /-! Wire content of each NAMED field of the records that Monero serialises field by field (`FIELD(..)` lists of rctTypes.h
-`Bulletproof`, `BulletproofPlus`, `boroSig`, `rangeSig`, cryptonote_basic.h `transaction_prefix`, `block_header`, `block`, crypto.h
+`Bulletproof`, `BulletproofPlus`, `boroSig`, `rangeSig`, cryptonote_basic.h `tx_out`, `transaction_prefix`, `block_header`, `block`, crypto.h
 `signature`), for comparison of the field ORDER with the `impl_consensus_encoding!` invocations regenerated from /repo (Props/C03
 `C03_field_orders_are_monero`). Field names are those of the library's public structs (harness `desc.rs` prints every field by name). -/
 def bpField (p : BpD) : String → B
@@ -224,6 +224,10 @@ def rangeSigField (boroOrder : List String) (r : RangeSigD) : String → B
   | "asig" => cat (boroOrder.map (boroSigField r)) | "Ci" => cat r.Ci | _ => []
 def sigField (s : B × B) : String → B
   | "c" => s.1 | "r" => s.2 | _ => []
+def outField (o : OutD) : String → B
+  | "amount" => varint o.amount
+  | "target" => (match o.tag with | none => [0x02] ++ o.key | some t => [0x03] ++ o.key ++ [t])
+  | _ => []
 def prefixField (d : TxD) : String → B
   | "version" => varint d.version | "unlock_time" => varint d.unlock
   | "inputs" => varint d.ins.length ++ cat (d.ins.map specIn) | "outputs" => varint d.outs.length ++ cat (d.outs.map specOut)
